@@ -409,6 +409,14 @@ class Router:
         coord1 = (area.latitude / 10000000, area.longitude / 10000000)
         coord2 = (lat / 10000000, lon / 10000000)
         x_distance, y_distance = Router.calculate_distance(coord1, coord2)
+        if area.angle % 360 != 0:
+            # EN 302 931: the x axis of the canonical form runs along the long side / semi-major
+            # axis, whose azimuth (clockwise from north) is the angle field of the area.
+            theta = math.radians(area.angle)
+            x_distance, y_distance = (
+                x_distance * math.cos(theta) - y_distance * math.sin(theta),
+                x_distance * math.sin(theta) + y_distance * math.cos(theta),
+            )
         if area_type in (GeoBroadcastHST.GEOBROADCAST_CIRCLE, GeoAnycastHST.GEOANYCAST_CIRCLE):
             return 1 - (x_distance / area.a) ** 2 - (y_distance / area.a) ** 2
         if area_type in (GeoBroadcastHST.GEOBROADCAST_ELIP, GeoAnycastHST.GEOANYCAST_ELIP):
